@@ -14,6 +14,11 @@
 (***************************************************************************)
 EXTENDS BV, TLC, FiniteSets
 
+\* Force(F, e): F applied to the *value* of e.  TLC passes operator arguments as thunks; in recursions
+\* that thread an accumulator (a state) through many levels the thunks chain up.  Binding through a
+\* singleton set evaluates e exactly once.
+Force(F(_), e) == CHOOSE y \in {F(x) : x \in {e}} : TRUE
+
 B(x) == [b |-> x]
 U(r) == [u |-> r]
 IsBVv(v) == "w" \in DOMAIN v
